@@ -21,6 +21,9 @@ REJECTED = ['A node goes from 1 to 3.\n$', 'A node is identified', 'A node goes 
 # accepted texts that leave traces in shared objects (a pronoun subject initialises the parser's shared placeholder entity);
 # kept here and not in corpus/regressions because their output is not meaningful ASP for the other properties' models
 PROBES = ['A node is identified by an id.\nThey go to a node.\n']
+_TRUCK = 'A truck is identified by an id, and has a load.\nIt is prohibited that L is greater than maxLoad, whenever there is a truck with id T, with load L.\n'
+PAIRS = [('maxLoad is a constant equal to 10.\n' + _TRUCK, _TRUCK),
+         ('A node is identified by an id, and has a weight.\nA node goes from 1 to 3.\n', REJECTED[-1])]
 DECLARES_NODE = 'A node is identified by an id, and has a weight.\nA node goes from 1 to 3.\n'
 
 
@@ -59,13 +62,27 @@ def run(tier, seed):
             last = list(calls[rnd.randrange(len(calls))])      # repeat an earlier call (idempotence)
         wf = rnd.random() < 0.3
         jobs.append(dict(with_functions=wf, calls=calls + [last], last=last, construct_first=rnd.random() < 0.4))
-    # directed histories: every regression text and the state-dependent rejected text, observed after each other regression text
+    # directed histories: every regression text and the state-dependent rejected text, observed (a) after all the other regression texts
+    # in two random orders (a later text can mask what an earlier one left behind, hence two orders), once reached through compile and
+    # once through the observed call itself, and (b) directly after a few single predecessors
+    pool = regress + [DECLARES_NODE]
     for t in regress + [REJECTED[-1]]:
         for api in (['compile', 'cnl_to_json'] if tier == 'quick' else APIS):
-            for h in regress + [DECLARES_NODE]:
-                if h != t:
-                    last = [api, t]
-                    jobs.append(dict(with_functions=False, calls=[['compile', h], last], last=last, construct_first=rnd.random() < 0.5))
+            others = [h for h in pool if h != t]
+            last = [api, t]
+            for via in ('compile', api):
+                order = list(others)
+                rnd.shuffle(order)
+                jobs.append(dict(with_functions=False, calls=[[via, h] for h in order] + [last], last=last, construct_first=rnd.random() < 0.5))
+            for h in rnd.sample(others, min(len(others), 2 if tier == 'quick' else 8)):
+                jobs.append(dict(with_functions=False, calls=[[rnd.choice(['compile', api]), h], last], last=last, construct_first=rnd.random() < 0.5))
+    # pairs of texts of which one declares what the other only mentions: each observed after the other, through every call
+    for a, b in PAIRS:
+        for api in APIS:
+            for first, second in ((a, b), (b, a)):
+                last = [api, second]
+                jobs.append(dict(with_functions=False, calls=[[api, first], last], last=last, construct_first=False))
+                jobs.append(dict(with_functions=False, calls=[[api, second], [api, first], last], last=last, construct_first=True))
     tasks = []
     for j in jobs:
         tasks.append((dict(with_functions=j['with_functions'], calls=j['calls'], construct_first=j['construct_first']), seeds[0]))       # with history
